@@ -94,7 +94,9 @@ class FnGen:
             self.feats.add('tick')
             sty = rng.below(3)
             if sty == 0:
-                self.emit(ind, 'tick(%d)' % (rng.below(50) + 1))
+                # now and then a line that lasts longer than 2**31 / 2**32 ticks (a few seconds on the nanosecond clock)
+                big = rng.chance(1, 8)
+                self.emit(ind, 'tick(%d)' % ((rng.below(3) + 2) * 1500000000 + rng.below(50) if big else rng.below(50) + 1))
             elif sty == 1:
                 self.emit(ind, 'a += (tick(%d) or %d)' % (rng.below(500) + 1, rng.below(3)))
             else:
